@@ -157,6 +157,10 @@ func JoinQuery(t *rapid.T, tables []TableSpec, o JoinOpts, label string) Q {
 	if rapid.IntRange(0, 3).Draw(t, label+"order") == 0 {
 		q.OrderBy = []Ord{{Alias: "j0", Desc: rapid.Bool().Draw(t, label+"desc")}}
 	}
+	if rapid.IntRange(0, 4).Draw(t, label+"limit") == 0 {
+		n := rapid.IntRange(0, 6).Draw(t, label+"n")
+		q.Limit = &n
+	}
 	return q
 }
 
